@@ -175,7 +175,9 @@ impl Format {
 
         let s = s_in.trim();
 
-        for (idx, char) in s.chars().enumerate() {
+        // NOTE: these are byte indexes because they are used to slice the string.
+        let last_idx = s.char_indices().next_back().map_or(0, |(idx, _)| idx);
+        for (idx, char) in s.char_indices() {
             // The second separator of the previous token is never part of a token which is not numeric
             // (e.g. a month name), but only numeric tokens notice it below.
             if idx == prev_idx
@@ -183,7 +185,7 @@ impl Format {
                 && !cur_token.is_numeric()
                 && prev_item.second_sep_char_is(char)
             {
-                prev_idx += 1;
+                prev_idx += char.len_utf8();
                 continue;
             }
 
@@ -192,7 +194,7 @@ impl Format {
             // 2. Or we've hit a non-numeric char and the token is fully numeric
             // 3. Or, token is not numeric (e.g. month name) and the current char is the separator
             // 4. And, if the length of the current substring is longer than 1 and the char is not the optional separator of the previous token.
-            if idx == s.len() - 1
+            if idx == last_idx
                 || ((cur_token.is_numeric() && !char.is_numeric())
                     || (!cur_token.is_numeric() && (cur_item.sep_char_is(char))))
             {
@@ -200,13 +202,13 @@ impl Format {
                 if idx == prev_idx
                     && (prev_item.second_sep_char.is_none() || prev_item.second_sep_char_is(char))
                 {
-                    prev_idx += 1;
+                    prev_idx += char.len_utf8();
                     continue;
                 }
 
                 if cur_token == Token::Timescale {
                     // Then we match the timescale directly.
-                    if idx != s.len() - 1 {
+                    if idx != last_idx {
                         // We have some remaining characters, so let's parse those in the only formats we know.
                         ts = TimeScale::from_str(s[idx..].trim()).with_context(|_| ParseSnafu {
                             details: "when parsing from format string",
@@ -221,7 +223,7 @@ impl Format {
                 prev_item = cur_item;
                 prev_token = cur_token;
 
-                let end_idx = if idx != s.len() - 1 || !char.is_numeric() {
+                let end_idx = if idx != last_idx || !char.is_numeric() {
                     // Only advance the token if we aren't at the end of the string
                     if cur_item.sep_char_is_not(char)
                         && (cur_item.second_sep_char.is_none()
@@ -250,17 +252,17 @@ impl Format {
                             idx
                         }
                         None => {
-                            if idx == s.len() - 1 {
+                            if idx == last_idx {
                                 // This character ends the string and the last token (e.g. a month name):
                                 // it is part of that token, which is parsed below.
-                                idx + 1
+                                idx + char.len_utf8()
                             } else {
                                 break;
                             }
                         }
                     }
                 } else {
-                    idx + 1
+                    idx + char.len_utf8()
                 };
 
                 let sub_str = &s[prev_idx..end_idx];
@@ -356,10 +358,10 @@ impl Format {
                     }
                 }
 
-                prev_idx = idx + 1;
+                prev_idx = idx + char.len_utf8();
                 // If we are about to parse an hours offset, we need to set the sign now.
                 if cur_token == Token::OffsetHours {
-                    if &s[idx..idx + 1] == "-" {
+                    if char == '-' {
                         offset_sign = -1;
                     }
                 }
